@@ -71,12 +71,16 @@ Definition remove_variables_vec {A} (vars : list nat) (l : list A) : list A :=
   | _ => remove_by_index 0 l (if sorted_natb vars then vars else sort_nat vars)
   end.
 
-(* ---------- remove_interactions(filter) ---------- *)
+(* ---------- remove_interactions(filter) ----------
+   every erased entry counts 1, an erased self-loop (stored once) counts 2;
+   the call returns half of the total = the number of interactions removed *)
 Definition remove_interactions (f : nat -> nat -> Qc -> bool) (m : qm) : qm * nat :=
   let rows := combine (seq 0 (length (adj m))) (adj m) in
   let a' := map (fun r => filter (fun e => negb (f (fst r) (fst e) (snd e))) (snd r)) rows in
   let removed := fold_right Nat.add 0%nat
-                   (map (fun r => length (filter (fun e => f (fst r) (fst e) (snd e)) (snd r))) rows) in
+                   (map (fun r => fold_right Nat.add 0%nat
+                                    (map (fun e => if (fst e =? fst r)%nat then 2%nat else 1%nat)
+                                         (filter (fun e => f (fst r) (fst e) (snd e)) (snd r)))) rows) in
   (mkQM (lin m) a' (off m) (vts m), (removed / 2)%nat).
 
 (* ---------- add_quadratic_from_dense ---------- *)
